@@ -221,7 +221,9 @@ def gen_pairs(rng, model, vocab, t, x_fields, for_kw=False):
                 if rng.random() < 0.5 and longer:
                     k = rng.choice(rng.choice(longer).keys)   # possibly absent key
         else:
-            if rng.random() < 0.25:
+            if rng.random() < 0.05:
+                v = ""            # 'k=': an empty value is a value (all-or-nothing applies to it as to any other)
+            elif rng.random() < 0.25:
                 v = "~" + v
         pairs.append((k, v))
     return pairs
